@@ -547,7 +547,9 @@ int main(int argc, char** argv) {
   vector<string> l3 = listsOf(d.e2eNames, 3, ';');
   vector<Acl> acls;
   vector<string> l1 = listsOf(d.e2eNames, 1, ';');
-  for (auto& D : l2) for (auto& U : l2) acls.push_back(Acl{"acl", D, U});
+  // thorough (12 names): the two lists together hold at most 3 names
+  auto nNames = [](const string& l) { return l.empty() || l == "*" ? size_t(0) : size_t(std::count(l.begin(), l.end(), ';')) + 1; };
+  for (auto& D : l2) for (auto& U : l2) if (set != "t" || nNames(D) + nNames(U) <= 3) acls.push_back(Acl{"acl", D, U});
   // default list given by --accesslevel: quick crosses it with all user lists, thorough (12 names) with the
   // user lists of <=1 name only (the option is just another source of the same default entry)
   for (auto& D : l2) for (auto& U : (set == "t" ? l1 : l2)) acls.push_back(Acl{"opt", D, U});
